@@ -625,8 +625,10 @@ fn check_completeness(
         // at most `k` candidates can have been taken, whichever they were; if a cover survives the
         // loss of any k candidates, selection must succeed.
         let earlier: Vec<&BlockIntent> = names[..pos].iter().filter_map(|n| its.iter().find(|x| x.name == *n)).filter(|x| !x.collateral).collect();
-        let k = earlier.len();
-        if !b.collateral && earlier.iter().all(|x| !x.many) {
+        // the collateral block draws from its own pool: regular blocks take nothing away from it
+        // (the property lets it share a UTxO with a regular input), so nothing can have been taken
+        let k = if b.collateral { 0 } else { earlier.len() };
+        if b.collateral || earlier.iter().all(|x| !x.many) {
             if !b.many {
                 let covering = wset.iter().filter(|(_, u)| value_covers(&u.value, min)).count();
                 if covering > k {
